@@ -861,8 +861,14 @@ regp_recv(RegP *p, RPMaybeFrame *mf)
         return early_ebusy(p, &fb);
     case ENOMEM:
         /* Send ERXOVERFLOW reply, based on fallback buffer */
-        byte_buffer_rewind(&fb);
-        byte_buffer_add(&fb, mf->frame->raw.memory, RP_HEADER_SIZE);
+        {
+            /* The frame was not parsed, so mf->frame->raw is not set up yet.
+             * Its start is stored in the block, behind the frame structure. */
+            const size_t stored = cs.buffer.used - sizeof(RPFrame);
+            byte_buffer_reset(&fb);
+            byte_buffer_add(&fb, cs.buffer.data + sizeof(RPFrame),
+                            stored < RP_HEADER_SIZE ? stored : RP_HEADER_SIZE);
+        }
         return early_erxoverflow(p, &fb);
     default:
         /* Unexpected error. Really shouldn't happen. */
